@@ -72,7 +72,7 @@ static void gen(mvsim_rng *r, long *p, int tier) {
   p[P_REAP_MASK] = m;
   p[P_JOIN_ORDER] = mvh_range(r, 0, 3);
   p[P_POISON_ATTR] = mvh_chance(r, 700);
-  p[P_STEALFN] = mvh_chance(r, 600) ? 0 : mvh_range(r, 1, 3);
+  p[P_STEALFN] = mvh_chance(r, 600) ? 0 : mvh_range(r, 1, 4);
   /* capacity: never smaller than what the program can legitimately need */
   long need = p[P_NTHREADS] + 4;
   long cap = need;
@@ -373,6 +373,22 @@ static myth_thread_t steal_takepass(int rank) {
   return t;
 }
 
+/* stealfn 4: owner-side operations from user code: a stolen thread is sometimes parked in the thief's own run queue
+   (myth_wsapi_runqueue_push) instead of being run at once, and the steal function sometimes serves the own queue
+   first (myth_wsapi_runqueue_pop) */
+static myth_thread_t steal_pushpop(int rank) {
+  int nw = myth_get_num_workers();
+  uint64_t c = mvsim_rng_below(&user_rng, 1000);
+  if (c < 250) { myth_thread_t own = myth_wsapi_runqueue_pop(); if (own) { mvh_counter[mvh_counter_id("own_pops")]++; return own; } }
+  if (nw <= 1) return 0;
+  int v = myth_wsapi_rand();
+  if (v == rank) return 0;
+  myth_thread_t t = myth_wsapi_runqueue_take(v, 0, 0);
+  if (!t) return 0;
+  if (c >= 700) { myth_wsapi_runqueue_push(t); mvh_counter[mvh_counter_id("own_pushes")]++; return 0; }
+  return t;
+}
+
 static void wait_all_finished(void) {
   for (;;) {
     int all = 1;
@@ -411,6 +427,7 @@ static void run(const long *p, mvsim_runcfg *cfg, mvsim_runstats *st) {
     case 1: prev = myth_wsapi_set_stealfunc(steal_decline); break;
     case 2: prev = myth_wsapi_set_stealfunc(steal_peektake); break;
     case 3: prev = myth_wsapi_set_stealfunc(steal_takepass); break;
+    case 4: prev = myth_wsapi_set_stealfunc(steal_pushpop); break;
   }
   N[0].invoked = 1;
   body(&N[0]);
